@@ -427,7 +427,8 @@ GENERIC_DESC = (
     "R-INFALSE no membership test against a literal holding both None and a bool (0 == False: a numeric zero is taken for 'not set'); "
     "R-ACQUIRE the result of lock.acquire(timeout=..)/acquire(blocking=False) is tested before the protected work; "
     "R-TWOCORNER no box mapped into another frame through two opposite corners only, unless the path is known axis aligned; "
-    "R-SIGNMAG (locals) no max()/min() over products of signed resolution components unpacked into locals"
+    "R-SIGNMAG (locals) no max()/min() over products of signed resolution components unpacked into locals; "
+    "R-RECIP no floor/ceil/int of a product with a stored reciprocal (1/size) in place of the quotient"
 )
 
 
@@ -457,8 +458,8 @@ ROUND4 = {'C01': ['epsg_str_canonical', 'explicit_crs_checked', 'wrapper_keyword
 ROUND5 = {'C02': ['resolution_siblings'], 'C03': ['point_transform_clamps'], 'C05': ['part_budget_matches_reservation'], 'C06': ['part_budget_matches_reservation'], 'C08': ['zoom_to_resolution_exact'], 'C11': ['utm_lonlat_needs_no_crs'], 'C13': ['dst_nodata_before_warp'], 'C16': ['auto_resolution_fallback'], 'C17': ['int_index_is_unit_slice'], 'C18': ['parts_dir_full_name'], 'C20': ['snap_tolerance_both_edges', 'resolution_siblings']}
 
 
-ROUND6 = {'C01': ['wrapper_keyword_operands'], 'C02': ['cache_field_not_copied'], 'C07': ['to_crs_keeps_vertices'], 'C08': ['zoom_to_resolution_as_requested', 'snap_grid_every_path_snaps'],
-          'C20': ['snap_grid_every_path_snaps'], 'C09': ['label_affine_not_snapped'], 'C10': ['paste_read_scale_sibling'], 'C03': ['paste_read_scale_sibling'], 'C11': ['cache_field_not_copied']}
+ROUND6 = {'C01': ['wrapper_keyword_operands', 'crs_eq_text_verdicts'], 'C02': ['cache_field_not_copied'], 'C07': ['to_crs_keeps_vertices'], 'C08': ['zoom_to_resolution_as_requested', 'snap_grid_every_path_snaps'],
+          'C20': ['snap_grid_every_path_snaps'], 'C09': ['label_affine_not_snapped'], 'C19': ['crs_eq_text_verdicts'], 'C17': ['intersect3_overlap_from_both'], 'C04': ['intersect3_overlap_from_both'], 'C10': ['paste_read_scale_sibling'], 'C03': ['paste_read_scale_sibling'], 'C11': ['cache_field_not_copied']}
 
 
 def _undecided(name, e):
@@ -489,7 +490,7 @@ def _with_generic(pid, fn):
         mods = {m for m in ANCHORED.get(pid, set()) if m in prog.modules}
         run.add(generic.rule_dup(prog, mods) + generic.rule_truthy(prog, mods) + generic.rule_abseps(prog, mods) + generic.rule_localmemo(prog, mods) + generic.rule_remainder_owner(prog, mods) + generic.rule_fallback(prog, mods) + generic.rule_isclose(prog, mods) + generic.rule_signed_magnitude(prog, mods) + generic.rule_zerodiv(prog, mods) + generic.rule_densify(prog, mods) + generic.rule_termination(prog, mods) + generic.rule_intidx(prog, mods) + generic.rule_assert_vs_annotation(prog, mods) + generic.rule_precision(prog, mods) + generic.rule_sharedmut(prog, mods) + generic.rule_itertwice(prog, mods)
                 + generic.rule_epsg_proxy(prog, mods) + generic.rule_rotation_tolerance(prog, mods) + generic2.rule_numnorm(prog, mods) + generic2.rule_isnum(prog, mods) + generic2.rule_eqsym(prog, mods) + generic2.rule_shiftidx(prog, mods) + generic2.rule_swallow(prog, mods) + generic2.rule_units(prog, mods) + generic2.rule_revrange(prog, mods) + generic2.rule_importtime(prog, mods)
-                + generic3.rule_infalse(prog, mods) + generic3.rule_acquire(prog, mods) + generic3.rule_twocorner(prog, mods) + generic3.rule_signmag_locals(prog, mods), GENERIC_DESC)
+                + generic3.rule_infalse(prog, mods) + generic3.rule_acquire(prog, mods) + generic3.rule_twocorner(prog, mods) + generic3.rule_signmag_locals(prog, mods) + generic3.rule_reciprocal(prog, mods), GENERIC_DESC)
 
     wrapped.__name__ = pid
     wrapped.__doc__ = fn.__doc__
